@@ -311,6 +311,7 @@ func runC07(c *fw.Ctx) {
 	res := c.Res
 	// the storage-proof half (closures driven directly + Lean storage-proof model) is the sub-check C07P
 	defer func() {
+		hugeFileProbe(c, true)
 		if r := fw.Lookup("C07R"); r != nil {
 			rule := c.Res.Rule
 			r(c)
